@@ -53,6 +53,12 @@ def eval_cases(draw, tier):
     n = spec["n"]
     case = {"Y": spec, "I": draw(gen.indices(n)), "as_array": draw(st.booleans()),
             "shared_P": draw(st.booleans())}
+    if draw(st.integers(0, 5)) == 0:
+        # a long index batch (rows derived from a drawn seed): lengths around powers of two and a few odd ones, so that an
+        # implementation that works block by block meets full blocks, one-row remainders and empty remainders
+        k = draw(st.integers(8, 17))
+        case["long_m"] = draw(st.sampled_from([2 ** k - 1, 2 ** k, 2 ** k + 1, 3 * 2 ** (k - 1) + 1, 40000, 100003, 16385, 65537]))
+        case["long_seed"] = draw(gen.seeds)
     if case["shared_P"] and len(set(n)) == 1:
         case["P"] = [draw(gen.reals(-2, 2)) for _ in range(n[0])]
     else:
@@ -84,6 +90,22 @@ def prop_eval(case, ctx):
     close(ctx, got, ref, tol, "get_many", ex)
     got = ctx.lib(teneva.get, Y, Iarg)            # batch spelling of get
     close(ctx, got, ref, tol, "get(batch)", ex)
+    if case.get("long_m"):
+        m_ = int(case["long_m"])
+        ctx.label("long_batch", f"long_batch:2^{int(np.log2(m_))}")
+        rng = np.random.default_rng(case["long_seed"])
+        IL = np.stack([rng.integers(0, k_, size=m_) for k_ in n], axis=1)
+        refL = F[tuple(IL.T)]
+        tolL = tolF[tuple(IL.T)]
+        for fn_ in (teneva.get_many, teneva.get):
+            gotL = ctx.lib(fn_, Y, IL)
+            ctx.check(np.shape(gotL) == (m_,), f"{fn_.__name__} on a batch of {m_} indices returned the wrong number of values", shape=list(np.shape(gotL)), m=m_)
+            close(ctx, gotL, refL, tolL, f"{fn_.__name__}(long batch)", ex)
+        gotL = ctx.lib(teneva.accuracy_on_data, Y, IL, refL)
+        nrL = float(np.linalg.norm(refL))
+        if nrL > 0:
+            ctx.check(np.ndim(gotL) == 0 and 0 <= gotL <= 4 * float(np.linalg.norm(tolL)) / nrL,
+                      "accuracy_on_data of a tensor on its own values (long batch) is not ~0", got=repr(gotL), bound=4 * float(np.linalg.norm(tolL)) / nrL)
     one = Iarr[0] if case["as_array"] else I[0]
     got = ctx.lib(teneva.get, Y, one)
     ctx.check(np.ndim(got) == 0, "get(single index) did not return a scalar", got=repr(got))
